@@ -617,7 +617,8 @@ Definition exec_cmd (s : st) (m : msg) : st * cres * list obs :=
   | CCheckpoint =>
       if any_bundling s then (s, Done (RExn EIMS), [])
       else
-        let s1 := reset_checkpoint s in
+        (* an explicit checkpoint ends the non-resumable section opened by clear_checkpoint (implicit ones do not) *)
+        let s1 := reset_checkpoint (match cache s with None => set_cache s (Some []) | Some _ => s end) in
         if deferred s1 then (s1, Susp KCkptSleep, []) else (s1, Done (RVal VNone), [])
   | CClearCheckpoint => (map_bundlers b_clear_ckpt (set_cache s None), Done (RVal VNone), [])
   | CRewindable v =>
